@@ -22,6 +22,11 @@
  *         Checkable::OnNotificationsRequested -> started NotificationComponent -> Checkable::SendNotifications
  *   D <node> <obj#> <now>                       object #obj (a Host/Service) becomes due for a check (SetNextCheck(now)); the
  *         started CheckerComponent's scheduler thread picks it up iff it is in its idle set
+ *   F <node> <obj#> <now>                       like D, but the check command blocks: the check stays IN FLIGHT (the checkable sits in
+ *         the scheduler's pending set) while the following lines run, until an R line, the next D/F line or the end of the case
+ *   R <node> <now>                              release the check held by F and wait until its helper has finished
+ *   E <node> <peer> <bits>                      scramble the local state of <node>'s Endpoint object #peer that is not "connected":
+ *         syncing, connecting, local/remote log position, capabilities, icinga_version, last message times (from the bits)
  *   T <node> <now>                              Timer::VerifFireDue(now) on <node>   | f=<seq> <obs>...
  *         seq: `a` authority timer ran, `n` notification timer ran, in firing order, `-` neither; one observation
  *         (taken right after that timer's production handler returned) per letter, one observation for `-`
@@ -53,6 +58,8 @@
 #include "icinga/checkcommand.hpp"
 #include "icinga/user.hpp"
 #include "base/function.hpp"
+#include "base/verif-hooks.hpp"
+#include <condition_variable>
 #include "checker/checkercomponent.hpp"
 #include "notification/notificationcomponent.hpp"
 #include <atomic>
@@ -220,6 +227,31 @@ static void GenCase(Rng& rng, std::vector<std::string>& out, bool thorough, long
 		else snprintf(buf, sizeof buf, "D %c %d %ld", "AB"[k], checkables[rng.below(checkables.size())], now);
 		out.push_back(buf);
 	};
+	int nEp = layout == 'N' ? 0 : layout == 'S' ? 2 : 2 + nExtra;
+	/* local endpoint state other than "connected" (syncing, connecting, log positions, ...): set independently on each node */
+	auto scramble = [&](int k, int peer) {
+		unsigned long bits = (unsigned long)rng.below(1UL << 31);
+		if (rng.below(3) == 0) bits |= 1;   /* syncing: what a node sets on the peer while it replays its log to it */
+		snprintf(buf, sizeof buf, "E %c %d %lu", "AB"[k], peer, bits); out.push_back(buf);
+	};
+	/* a check that is in flight while the authority moves: held, things happen, released, then due again twice */
+	auto inflight = [&](int k) {
+		int obj = checkables[rng.below(checkables.size())];
+		snprintf(buf, sizeof buf, "F %c %d %ld", "AB"[k], obj, now); out.push_back(buf);
+		int what = (int)rng.below(4);
+		if (layout == 'P' && what <= 1) {
+			bool v = !(up[0] && up[1]);
+			for (int j = 0; j < 2; j++) { snprintf(buf, sizeof buf, "K %c %d %d", "AB"[j], 1 - j, v ? 1 : 0); out.push_back(buf); up[j] = v; }
+		} else if (layout == 'P' && what == 2) {
+			up[k] = !up[k];
+			snprintf(buf, sizeof buf, "K %c %d %d", "AB"[k], 1 - k, up[k] ? 1 : 0); out.push_back(buf);
+		}
+		now += (long)rng.below(3) * 16;
+		update(k);
+		if (rng.coin()) update(1 - k);
+		snprintf(buf, sizeof buf, "R %c %ld", "AB"[k], now); out.push_back(buf);
+		for (int j = 0; j < 2; j++) { now += 1 + (long)rng.below(3); snprintf(buf, sizeof buf, "D %c %d %ld", "AB"[k], obj, now); out.push_back(buf); }
+	};
 	/* often: work right after the start, inside the cold-start window */
 	if (rng.below(2) == 0) {
 		int n = 1 + (int)rng.below(4);
@@ -233,7 +265,9 @@ static void GenCase(Rng& rng, std::vector<std::string>& out, bool thorough, long
 		int node = (int)rng.below(2);
 		if (layout == 'N' || layout == 'S') {
 			if (r < 35) update(node);
-			else if (r < 75) work(node, (int)rng.below(6));
+			else if (r < 70) work(node, (int)rng.below(6));
+			else if (r < 75) inflight(node);
+			else if (r < 78 && nEp) scramble(node, (int)rng.below(nEp));
 			else if (r < 88 && layout == 'S') { snprintf(buf, sizeof buf, "K %c %d %d", "AB"[node], 1 - node, (int)rng.below(2)); out.push_back(buf); }
 			else if (r < 93) { snprintf(buf, sizeof buf, "B %c %ld", "AB"[node], now); out.push_back(buf); }
 			continue;
@@ -242,6 +276,7 @@ static void GenCase(Rng& rng, std::vector<std::string>& out, bool thorough, long
 			/* symmetric link change: both views flip, then usually both update, then often both get the same work */
 			bool v = !(up[0] && up[1]);
 			for (int k = 0; k < 2; k++) { snprintf(buf, sizeof buf, "K %c %d %d", "AB"[k], 1 - k, v ? 1 : 0); out.push_back(buf); up[k] = v; }
+			for (int k = 0; k < 2; k++) if (rng.below(3) == 0) scramble(k, 1 - k);
 			if (rng.below(4)) for (int k = 0; k < 2; k++) update(k);
 			if (rng.below(2)) { int w = (int)rng.below(6); if (w == 3) w = 0; long save = (long)rng.s; for (int k = 0; k < 2; k++) { rng.s = (uint64_t)save; work(k, w); } }
 		} else if (r < 26) {
@@ -251,8 +286,12 @@ static void GenCase(Rng& rng, std::vector<std::string>& out, bool thorough, long
 			snprintf(buf, sizeof buf, "K %c %d %d", "AB"[node], 2 + (int)rng.below(nExtra), (int)rng.below(2)); out.push_back(buf);
 		} else if (r < 52) {
 			update(node);
-		} else if (r < 90) {
+		} else if (r < 80) {
 			work(node, (int)rng.below(6));
+		} else if (r < 85) {
+			inflight(node);
+		} else if (r < 90) {
+			scramble(node, (int)rng.below(nEp));
 		} else if (r < 95) {
 			long st = rng.below(6) == 0 ? 0 : now;
 			snprintf(buf, sizeof buf, "B %c %ld", "AB"[node], st); out.push_back(buf);
@@ -405,6 +444,7 @@ static Value GetF(const ConfigObject::Ptr& o, const char *field)
 }
 
 static void TimerRan(char which);
+static void ReleaseHeldCheck();
 static Value NotifExec(const std::vector<Value>& args);
 static void CheckExec(const Checkable::Ptr& checkable, const CheckResult::Ptr& cr, const Dictionary::Ptr&, bool);
 
@@ -450,6 +490,7 @@ static ConfigObject::Ptr Create(const Obj& o, const std::string& baseHost)
 static void TearDown()
 {
 	if (!l_Built) return;
+	ReleaseHeldCheck();
 	Sync();
 	for (auto& kv : l_Clients)
 		l_Endpoints[kv.first]->RemoveClient(kv.second);
@@ -589,6 +630,97 @@ static void Emit(const std::string& op, const std::string& obs)
 	else printf("%s | %s\n", op.c_str(), obs.c_str());
 }
 
+/* ---- checks: explicitly due, optionally held in flight ---- */
+static std::mutex l_HoldMutex;
+static std::condition_variable l_HoldCV;
+static Checkable *l_HoldObj = nullptr;      /* the next execution of this checkable blocks inside the check command ... */
+static bool l_HoldBlocked = false;          /* ... it is blocked now ... */
+static bool l_HoldRelease = false;          /* ... until this is set */
+static bool l_HoldDone = false;             /* the command has returned */
+static std::atomic<long> l_HelperStarted{0}, l_HelperFinished{0};
+
+static void CheckerWhere(const Checkable::Ptr& c, bool& idle, bool& pend)
+{
+	CheckerComponent *cc = l_CC.get();
+	std::unique_lock<std::mutex> lock(cc->*get(CcMtxTag()));
+	auto& i = cc->*get(CcIdleTag());
+	auto& p = cc->*get(CcPendTag());
+	idle = i.find(c) != i.end();
+	pend = p.find(c) != p.end();
+}
+
+/* Wait until every ExecuteCheckHelper that has started has left its final lock-protected section (schedule points
+ * helper.start / helper.finish of lib/base/verif-hooks.hpp) and the checkable is not pending any more. */
+static void WaitHelpers(const Checkable::Ptr& c)
+{
+	for (int i = 0; ; i++) {
+		bool idle, pend;
+		CheckerWhere(c, idle, pend);
+		if (!pend && l_HelperFinished.load() >= l_HelperStarted.load()) break;
+		if (i > 100000) Die("check helper did not finish");
+		std::this_thread::sleep_for(std::chrono::microseconds(100));
+	}
+}
+
+static void ReleaseHeldCheck()
+{
+	Checkable::Ptr held;
+	{
+		std::unique_lock<std::mutex> lock(l_HoldMutex);
+		if (!l_HoldObj) return;
+		held = l_HoldObj;
+		l_HoldRelease = true;
+		l_HoldCV.notify_all();
+		if (!l_HoldCV.wait_for(lock, std::chrono::seconds(20), [] { return l_HoldDone; })) Die("held check did not return");
+		l_HoldObj = nullptr;
+		l_HoldBlocked = l_HoldRelease = l_HoldDone = false;
+	}
+	WaitHelpers(held);
+}
+
+/* Object #idx (a Host/Service) becomes due at `now`.  hold: its check command blocks (the check stays in flight) until an
+ * R line, the next D/F line or the end of the case on this node. */
+static void DueCheck(size_t idx, double now, bool hold)
+{
+	ReleaseHeldCheck();
+	if (!(idx < l_Objs.size() && l_Objs[idx].ptr && (l_Objs[idx].type == 'h' || l_Objs[idx].type == 's')))
+		return;
+	SetNow(now);
+	Checkable::Ptr c = static_pointer_cast<Checkable>(l_Objs[idx].ptr);
+	auto execs = [&c]() { std::unique_lock<std::mutex> lock(l_CountersMutex); return l_Counters[c.get()].execs; };
+	long before = execs();
+	if (hold) {
+		std::unique_lock<std::mutex> lock(l_HoldMutex);
+		l_HoldObj = c.get();
+		l_HoldBlocked = l_HoldRelease = l_HoldDone = false;
+	}
+	c->SetNextCheck(now);   /* OnNextCheckChanged -> the checker re-indexes it and wakes its scheduler thread */
+	bool idle, pend;
+	CheckerWhere(c, idle, pend);
+	if (idle || pend) {
+		/* the scheduler knows the object: it must run the check now; wait for the command (and for the helper) */
+		for (int i = 0; execs() == before; i++) {
+			if (i > 100000) Die("due check of a scheduled object was not executed");
+			std::this_thread::sleep_for(std::chrono::microseconds(100));
+		}
+		if (hold) {
+			std::unique_lock<std::mutex> lock(l_HoldMutex);
+			if (!l_HoldCV.wait_for(lock, std::chrono::seconds(20), [] { return l_HoldBlocked; })) Die("held check did not block");
+		} else {
+			WaitHelpers(c);
+		}
+	} else {
+		/* not this node's business: the check does not run; take the due time back so that it is not
+		 * run later at an unobserved moment when the node gains authority */
+		if (hold) {
+			std::unique_lock<std::mutex> lock(l_HoldMutex);
+			l_HoldObj = nullptr;
+		}
+		std::this_thread::sleep_for(std::chrono::microseconds(300));
+		c->SetNextCheck(4e9);
+	}
+}
+
 static void RunLine(const std::string& line)
 {
 	std::vector<std::string> w = Words(line);
@@ -707,44 +839,29 @@ static void RunLine(const std::string& line)
 					Checkable::OnNotificationsRequested(host, NotificationCustom, cr, "a", "t", nullptr);
 				}
 			}
-		} else if (op == "D") {
-			if (w.size() != 4) Die("bad D line");
-			size_t idx = (size_t)atol(w[2].c_str());
-			if (mine && idx < l_Objs.size() && l_Objs[idx].ptr && (l_Objs[idx].type == 'h' || l_Objs[idx].type == 's')) {
-				double now = (double)atol(w[3].c_str());
-				SetNow(now);
-				Checkable::Ptr c = static_pointer_cast<Checkable>(l_Objs[idx].ptr);
-				auto execs = [&c]() { std::unique_lock<std::mutex> lock(l_CountersMutex); return l_Counters[c.get()].execs; };
-				auto where = [&c](bool& idle, bool& pend) {
-					CheckerComponent *cc = l_CC.get();
-					std::unique_lock<std::mutex> lock(cc->*get(CcMtxTag()));
-					auto& i = cc->*get(CcIdleTag());
-					auto& p = cc->*get(CcPendTag());
-					idle = i.find(c) != i.end();
-					pend = p.find(c) != p.end();
-				};
-				long before = execs();
-				c->SetNextCheck(now);   /* OnNextCheckChanged -> the checker re-indexes it and wakes its scheduler thread */
-				bool idle, pend;
-				where(idle, pend);
-				if (idle || pend) {
-					/* the scheduler knows the object: it must run the check now; wait for the command and for the helper */
-					for (int i = 0; execs() == before; i++) {
-						if (i > 100000) Die("due check of a scheduled object was not executed");
-						std::this_thread::sleep_for(std::chrono::microseconds(100));
-					}
-					for (int i = 0; ; i++) {
-						where(idle, pend);
-						if (!pend) break;
-						if (i > 100000) Die("check helper did not finish");
-						std::this_thread::sleep_for(std::chrono::microseconds(100));
-					}
-				} else {
-					/* not this node's business: the check does not run; take the due time back so that it is not
-					 * run later at an unobserved moment when the node gains authority */
-					std::this_thread::sleep_for(std::chrono::microseconds(300));
-					c->SetNextCheck(4e9);
-				}
+		} else if (op == "D" || op == "F") {
+			if (w.size() != 4) Die("bad D/F line");
+			if (mine) DueCheck((size_t)atol(w[2].c_str()), (double)atol(w[3].c_str()), op == "F");
+		} else if (op == "R") {
+			if (mine) {
+				SetNow((double)atol(w[2].c_str()));
+				ReleaseHeldCheck();
+			}
+		} else if (op == "E") {
+			/* local, per-endpoint state that is NOT "connected": must have no influence on the authority */
+			if (w.size() != 4) Die("bad E line");
+			int peer = atoi(w[2].c_str());
+			unsigned long v = strtoul(w[3].c_str(), nullptr, 10);
+			if (mine && peer >= 0 && peer < (int)l_Endpoints.size()) {
+				Endpoint::Ptr e = l_Endpoints[peer];
+				e->SetSyncing((v & 1) != 0);
+				e->SetConnecting((v & 2) != 0);
+				e->SetLocalLogPosition((double)((v >> 2) & 0xfff));
+				e->SetRemoteLogPosition((double)((v >> 14) & 0xfff));
+				e->SetCapabilities((v >> 26) & 0xf);
+				e->SetIcingaVersion(((v >> 30) & 1) ? 21400 : 0);
+				e->SetLastMessageSent((double)((v >> 4) & 0xffff));
+				e->SetLastMessageReceived((double)((v >> 9) & 0xffff));
 			}
 		} else if (op == "T") {
 			if (mine) {
@@ -793,12 +910,27 @@ static void CheckExec(const Checkable::Ptr& checkable, const CheckResult::Ptr& c
 		std::unique_lock<std::mutex> lock(l_CountersMutex);
 		l_Counters[checkable.get()].execs++;
 	}
+	bool held = false;
+	{
+		std::unique_lock<std::mutex> lock(l_HoldMutex);
+		if (l_HoldObj == checkable.get() && !l_HoldBlocked) {
+			held = true;
+			l_HoldBlocked = true;
+			l_HoldCV.notify_all();
+			l_HoldCV.wait(lock, [] { return l_HoldRelease; });
+		}
+	}
 	double now = Utility::GetTime();
 	cr->SetState(ServiceOK);
 	cr->SetOutput("x");
 	cr->SetExecutionEnd(now);
 	cr->SetScheduleEnd(now);
 	checkable->ProcessCheckResult(cr);
+	if (held) {
+		std::unique_lock<std::mutex> lock(l_HoldMutex);
+		l_HoldDone = true;
+		l_HoldCV.notify_all();
+	}
 }
 
 /* ------------------------------------------------------------------------------------------- */
@@ -808,6 +940,10 @@ static int NodeMain(int argc, char **argv, const std::string& mode, char node)
 	l_Node = node == 'B' ? 1 : 0;
 	InitIcinga();
 	SetNow(1000);
+	VerifPointHook() = [](const char *name, const void *) {
+		if (!strcmp(name, "helper.start")) l_HelperStarted++;
+		else if (!strcmp(name, "helper.finish")) l_HelperFinished++;
+	};
 
 	ConfigObject::OnPausedChanged.connect([](const ConfigObject::Ptr& o, const Value&) {
 		std::unique_lock<std::mutex> lock(l_CountersMutex);
